@@ -167,6 +167,21 @@ impl Prop for C01Prop {
     }
 
     fn exec(&self, scn: &Scenario, st: &mut Stats) -> Outcome {
+        // C01 is about the encoders: a panicking encoder is its violation
+        struct Strict;
+        impl Drop for Strict {
+            fn drop(&mut self) {
+                crate::scn::STRICT_ENCODER.with(|c| c.set(false));
+            }
+        }
+        crate::scn::STRICT_ENCODER.with(|c| c.set(true));
+        let _guard = Strict; // also reset when the run unwinds
+        self.exec_inner(scn, st)
+    }
+}
+
+impl C01Prop {
+    fn exec_inner(&self, scn: &Scenario, st: &mut Stats) -> Outcome {
         let l = link(scn);
         let built = build_stream(&l.segs);
         let payload = match &l.segs[..] {
